@@ -396,7 +396,7 @@ pub fn run_history(scn: &HrScn, f: &ValidFile, dbf: &[u8], ctx: &mut Ctx) {
             }
         }
     }
-    ctx.stats.distinct.insert(crate::prng::fnv_str(&format!("{}|{}|{:?}|{}|{}|{}", scn.ty, scn.varied, scn.kind, hist, scn.rbuf, scn.layout)));
+    ctx.stats.distinct.insert(crate::prng::fnv_str(&format!("{}|{}|{:?}|{}|{}|{}|{}", scn.ty, scn.varied, scn.kind, hist, scn.rbuf, scn.layout, scn.n)));
 }
 
 pub fn execute(scn: &HrScn, ctx: &mut Ctx) {
@@ -427,21 +427,40 @@ pub fn alphabet(n: usize) -> Vec<ROp> {
     a
 }
 
-/// Sweep unit: (first letter, configuration). All histories up to `max_len` starting with that
-/// letter, on a file of n = 3 records.
+/// The configurations swept: (reader, pairwise different sizes?, layout, number of records).
+const CONFIGS: [(RKind, bool, u8, usize); 16] = [
+    (RKind::ShpIndex, true, 0, 3),
+    (RKind::ShpNoIndex, true, 0, 3),
+    (RKind::Full, true, 0, 3),
+    (RKind::ShpIndex, false, 0, 3),
+    (RKind::ShpNoIndex, false, 0, 3),
+    (RKind::Full, false, 0, 3),
+    (RKind::ShpIndex, true, 1, 3),
+    (RKind::Full, true, 1, 3),
+    (RKind::ShpIndex, false, 2, 3),
+    (RKind::Full, true, 2, 3),
+    // small and larger record counts
+    (RKind::ShpIndex, true, 0, 1),
+    (RKind::Full, true, 0, 1),
+    (RKind::ShpIndex, true, 0, 2),
+    (RKind::ShpNoIndex, true, 0, 1),
+    (RKind::ShpIndex, true, 1, 4),
+    (RKind::Full, false, 0, 4),
+];
+const MAX_ALPHABET: usize = 17;
+
+/// Sweep unit: (configuration, first letter). All histories up to `max_len` starting with that
+/// letter (for the 4-record configurations one call less, their alphabet has 17 letters).
 pub fn sweep_unit(unit: u64, max_len: usize, ctx: &mut Ctx, ctl: &mut UnitCtl) {
-    let n = 3usize;
+    let cfg = (unit as usize) / MAX_ALPHABET;
+    let (kind, varied, layout, n) = CONFIGS[cfg % CONFIGS.len()];
     let alpha = alphabet(n);
-    let first = alpha[(unit as usize) % alpha.len()];
-    let cfg = (unit as usize) / alpha.len();
-    // 6 configurations on files as written, 4 on re-laid-out files (index order != physical order)
-    let (kind, varied, layout) = match cfg {
-        0..=5 => ([RKind::ShpIndex, RKind::ShpNoIndex, RKind::Full][cfg % 3], (cfg / 3) % 2 == 0, 0u8),
-        6 => (RKind::ShpIndex, true, 1),
-        7 => (RKind::Full, true, 1),
-        8 => (RKind::ShpIndex, false, 2),
-        _ => (RKind::Full, true, 2),
-    };
+    let li = (unit as usize) % MAX_ALPHABET;
+    if li >= alpha.len() {
+        return;
+    }
+    let first = alpha[li];
+    let max_len = if n >= 4 { max_len.saturating_sub(1).max(1) } else { max_len };
     // two types per configuration: a multi-vertex one (sizes can differ) and points (always equal)
     let ty = if varied { [3, 15, 28][cfg % 3] } else { [1, 11, 5][cfg % 3] };
     let rbuf = [0u32, 16, 0][cfg % 3];
@@ -473,4 +492,4 @@ pub fn sweep_unit(unit: u64, max_len: usize, ctx: &mut Ctx, ctl: &mut UnitCtl) {
     }
 }
 
-pub const SWEEP_UNITS: u64 = 15 * 10;
+pub const SWEEP_UNITS: u64 = (MAX_ALPHABET * CONFIGS.len()) as u64;
